@@ -155,6 +155,8 @@ func genC01(c *Ctx) {
 		f()
 	}
 	hist.rest()
+	// foreign bags of cells with every legal header width: c01f.go
+	genC01Widths(c, r.Fork(0xc020))
 	// several goroutines, each on its own cells (or reading one shared DAG): c01d.go
 	genC01Conc(c, r.Fork(0xc01c))
 	if c01st.skipped > 0 {
